@@ -761,7 +761,19 @@ func init() {
 		if iv.t == nil {
 			return Iface{}
 		}
-		return Iface{t: w.eng.opaqueType("reflect.rtype"), v: &Opaque{kind: "rtype", v: iv.t}}
+		// one descriptor per type, so that reflect.TypeOf(a) == reflect.TypeOf(b) iff the dynamic types are identical
+		cache, _ := w.userData["rtypes"].(map[string]*Opaque)
+		if cache == nil {
+			cache = map[string]*Opaque{}
+			w.userData["rtypes"] = cache
+		}
+		k := typeKey(iv.t)
+		o := cache[k]
+		if o == nil {
+			o = &Opaque{kind: "rtype", v: iv.t}
+			cache[k] = o
+		}
+		return Iface{t: w.eng.opaqueType("reflect.rtype"), v: o}
 	})
 
 	// fresh, pairwise distinct identifiers
